@@ -7,4 +7,4 @@ run() {
   echo "$s :: $out"
 }
 export -f run
-ls seeded | xargs -P 2 -I{} bash -c 'run {}'
+ls seeded | xargs -P 6 -I{} bash -c 'run {}'
